@@ -208,7 +208,7 @@ macro_rules! safe_join_rec_harness {
 }
 
 // @verif-block props=C17 group=core doc=safe_join(base="/b",name)_for_EVERY_name_of_up_to_N_bytes_over_the_listed_alphabet:_if_a_path_is_returned,_no_argument_handed_to_PathBuf::push_starts_with_'/'_(would_replace_the_base)_or_contains_a_".."_component,_hence_the_path_stays_beneath_the_base_by_std's_documented_push_semantics
-safe_join_rec_harness!(c17_join_rec_2b, 2, 16, [b'.', b'/', b'\\', b'a']); // tier=quick cap=900
+safe_join_rec_harness!(c17_join_rec_2b, 2, 9, [b'.', b'/', b'\\', b'a']); // tier=quick cap=900
 safe_join_rec_harness!(c17_join_rec_3b, 3, 6, [b'.', b'/', b'\\', b'a']); // tier=quick cap=900
 safe_join_rec_harness!(c17_join_rec_4b, 4, 7, [b'.', b'/', b'\\', b'a']); // tier=quick cap=1200
 safe_join_rec_harness!(c17_join_rec_5b, 5, 8, [b'.', b'/', b'\\', b'a', 0u8]); // tier=thorough cap=2400
